@@ -103,7 +103,7 @@ class C19(CfProp):
             if kind in ("min", "anc"):
                 c["v"] = rand_cf_var(rng, g["nodes"])
             elif kind == "comp":
-                c["roots"] = [rand_cf_var(rng, g["nodes"]) for _ in range(rng.randint(1, 3))]
+                c["roots"] = [rand_cf_var(rng, g["nodes"]) for _ in range(rng.randint(1, 3) if rng.random() < 0.75 else rng.randint(4, 6))]
                 c["conds"] = [rand_cf_var(rng, g["nodes"], 1) for _ in range(rng.randint(0, 2))]
                 two = [(a, b, d) for a, b in g["dir"] for b2, d in g["dir"] if b2 == b and d != a]
                 if two and rng.random() < 0.3:
